@@ -34,7 +34,7 @@ class C02(Harness):
         out = []
         for k in self.bounds(tier)["steps"]:
             for rel in (True, False):
-                for how in ("array", "list", "index", "range") + (("int",) if k == 1 else ()):
+                for how in ("array", "list", "index", "range") + (("int", "array-uint8") if k == 1 else (("array-uint8",) if k == 2 else ())):
                     out.append({"name": "%s-%s-k%d" % ("rel" if rel else "abs", how, k), "kind": "conv", "rel": rel, "how": how, "K": k, "cost": k * k})
                 if k <= 2:
                     out.append({"name": "%s-array-k%d-concrete-cutoff" % ("rel" if rel else "abs", k), "kind": "conv", "rel": rel, "how": "array", "K": k, "concrete_cutoff": True, "cost": k * k})
@@ -59,6 +59,10 @@ class C02(Harness):
             ctx.assume((inp["step"] >= -3) & (inp["step"] != 0))
         else:
             inp["v"] = fresh_ints(ctx, "v", K)
+            if cell["how"] == "array-uint8":
+                for v in inp["v"]:
+                    ctx.assume((v >= 0) & (v <= 100))  # representable in the narrow type; results of the conversions need not be
+                ctx.assume((inp["c"] >= -300) & (inp["c"] <= 300))
         return inp
 
     def _build(self, W, inp, cell):
@@ -66,6 +70,8 @@ class C02(Harness):
         how = cell["how"]
         if how == "array":
             return np.array(inp["v"])
+        if how == "array-uint8":
+            return np.array(inp["v"], dtype=np.uint8)  # an integer array of a narrower dtype
         if how == "list":
             return list(inp["v"])
         if how == "index":
